@@ -406,6 +406,10 @@ class ImplRunner:
             except Exception as e:  # noqa
                 return ["a" + wire.enc_err(e)]
             return ["bad-acc"]
+        if op == "settings":
+            from . import corr_settings
+
+            return corr_settings.impl_settings(split_params(rest)[0])
         if op == "msnap":
             if self.mgr is None:
                 return ["nomgr"]
